@@ -1,5 +1,6 @@
 //! vh: conformance harness binding the TLA+ specifications in /verif/specs to
 //! the real rustradio code in /repo (built with --cfg rustradio_verif).
+mod ax25;
 mod bench;
 mod blocks;
 mod common;
@@ -17,6 +18,7 @@ fn main() {
         "ring-replay" => ring::cmd_replay(rest),
         "ring-trace" => ring::cmd_trace(rest),
         "repeat-replay" => ring::cmd_repeat_replay(rest),
+        "ax25-run" => ax25::cmd_run(rest),
         "bench" => bench::cmd_bench(rest),
         "codec" => formats::cmd_codec(rest),
         "reasm" => formats::cmd_reasm(rest),
